@@ -7,6 +7,7 @@ package main
 // trailing bytes, status in nfsstat3 / mountstat3.
 
 import (
+	"bytes"
 	"encoding/binary"
 	"encoding/json"
 	"fmt"
@@ -15,6 +16,7 @@ import (
 	"net"
 	"strings"
 	"sync"
+	"sync/atomic"
 	"time"
 
 	"github.com/absfs/absnfs"
@@ -28,6 +30,10 @@ func init() {
 		}
 		if err := json.Unmarshal(raw, &rp); err != nil {
 			r.Notes = append(r.Notes, "replay: "+err.Error())
+			return
+		}
+		if rp.Case.State == "concurrent-reads" {
+			concurrentReadReplies(r, 3000)
 			return
 		}
 		obs := runC14(rp.Case)
@@ -52,9 +58,9 @@ type c14Obs struct {
 	Accept uint32
 	Data   []byte
 	Denied bool
-	Wire  []byte
-	Xid   uint32
-	NoRep bool // HandleCall returned an error: no reply at all (allowed only for timeouts)
+	Wire   []byte
+	Xid    uint32
+	NoRep  bool // HandleCall returned an error: no reply at all (allowed only for timeouts)
 }
 
 func c14Tree() *RefFS {
@@ -306,7 +312,9 @@ func verdictKind(v string) string {
 // validArgs returns well-formed argument sets for (prog, proc) over the handles of the standard tree.
 func c14ValidArgs(hs map[string]uint64, rng *rand.Rand) map[[2]uint32][][]byte {
 	out := map[[2]uint32][][]byte{}
-	add := func(prog, proc uint32, a ...[]byte) { out[[2]uint32{prog, proc}] = append(out[[2]uint32{prog, proc}], a...) }
+	add := func(prog, proc uint32, a ...[]byte) {
+		out[[2]uint32{prog, proc}] = append(out[[2]uint32{prog, proc}], a...)
+	}
 	objs := []uint64{hs["/"], hs["/d"], hs["/f"], hs["/l"], hs["/gone"], hs["stale"]}
 	for _, h := range objs {
 		add(progNFS, 1, fh(h))
@@ -417,4 +425,80 @@ func checkC14(r *Result, rng *rand.Rand, thorough bool) {
 	}
 	judgeC14(r, cases, obs)
 	r.sample(fmt.Sprintf("%d calls per state", len(cases[0].Calls)))
+	rounds := 300
+	if thorough {
+		rounds = 3000
+	}
+	concurrentReadReplies(r, rounds)
+}
+
+// concurrentReadReplies: replies built for different connections at the same time must not share state. Eight
+// connections (served by the real connection loop) read four files of different sizes and contents at once; every
+// READ reply is decoded exactly — READ3resok: status, post_op_attr, count, eof, opaque data with its padding, and
+// nothing else — and the data compared with the file it was asked for.
+func concurrentReadReplies(r *Result, rounds int) {
+	fs := NewRefFS()
+	fs.logOn = false
+	sizes := []int{12, 5000, 1, 700}
+	content := make([][]byte, len(sizes))
+	for i, n := range sizes {
+		content[i] = bytes.Repeat([]byte{byte('A' + i)}, n)
+		f, err := fs.Create(fmt.Sprintf("/r%d", i))
+		must(err)
+		f.Write(content[i])
+		f.Close()
+	}
+	s, err := newSrv(fs, absnfs.ExportOptions{})
+	must(err)
+	defer s.Close()
+	root, st := s.Mount("/")
+	if st != 0 {
+		panic("mount failed")
+	}
+	hs := make([]uint64, len(sizes))
+	for i := range sizes {
+		hs[i], _ = s.Lookup(root, fmt.Sprintf("r%d", i), rootCred())
+	}
+	const conns = 8
+	type bad struct{ what string }
+	found := make(chan bad, conns)
+	var wg sync.WaitGroup
+	var total int64
+	for c := 0; c < conns; c++ {
+		wg.Add(1)
+		go func(c int) {
+			defer wg.Done()
+			p := servePeer(s, fmt.Sprintf("10.9.0.%d", c+1), 900)
+			defer p.Close()
+			for k := 0; k < rounds; k++ {
+				i := (c + k) % len(sizes)
+				rs, as, res, err := p.call(progNFS, 3, 6, rootCred(), argRead(hs[i], 0, 8192))
+				atomic.AddInt64(&total, 1)
+				if err != nil || rs != 0 || as != 0 {
+					found <- bad{fmt.Sprintf("READ of /r%d on connection %d: err=%v reply_stat=%d accept_stat=%d", i, c, err, rs, as)}
+					return
+				}
+				n := len(content[i])
+				want := 4 + 4 + 84 + 4 + 4 + 4 + (n+3)&^3
+				switch {
+				case len(res) < 4+4+84+12 || binary.BigEndian.Uint32(res) != 0 || binary.BigEndian.Uint32(res[4:]) != 1:
+					found <- bad{fmt.Sprintf("READ of /r%d (%d bytes) on connection %d: %d result bytes, not an NFS3_OK READ3resok with attributes", i, n, c, len(res))}
+					return
+				case len(res) != want || int(binary.BigEndian.Uint32(res[92:])) != n || int(binary.BigEndian.Uint32(res[100:])) != n:
+					found <- bad{fmt.Sprintf("READ of /r%d (%d bytes) on connection %d while 7 other connections were reading other files: result is %d bytes, count=%d, opaque length=%d; a READ3resok for %d bytes is exactly %d bytes", i, n, c, len(res), binary.BigEndian.Uint32(res[92:]), binary.BigEndian.Uint32(res[100:]), n, want)}
+					return
+				case !bytes.Equal(res[104:104+n], content[i]):
+					found <- bad{fmt.Sprintf("READ of /r%d on connection %d returned another file's bytes (%q...)", i, c, res[104:104+min(n, 8)])}
+					return
+				}
+			}
+		}(c)
+	}
+	wg.Wait()
+	close(found)
+	r.noteCase("concurrent-read-replies", true)
+	r.Histogram["concurrent-read-replies"] += int(total)
+	if b, ok := <-found; ok {
+		r.violate(Violation{Class: "C14/reply-mixed-up-under-concurrency", What: b.what, Case: c14Case{State: "concurrent-reads"}})
+	}
 }
